@@ -15,7 +15,8 @@ TABLE = [
     ("C06", r"dispatch", r".*", ["zero_length_dense", "sol_at_every_sample"]),
     ("C06", r"method_map", r".*", ["sol_at_every_sample", "zero_length_dense", "dense_midstep_order"]),
     ("C06", r"cont_R", r"sol_many|evaluate_many", ["sol_many_range"]),
-    ("C06", r"cont_R", r".*", ["tiny_time_scale", "sol_at_every_sample", "sol_many_range"]),
+    ("C06", r"cont_R", r"build\.", ["zero_length_dense", "sol_at_every_sample"]),
+    ("C06", r"cont_R", r".*", ["tiny_time_scale", "sol_at_every_sample", "sol_many_range", "zero_length_dense"]),
     ("C06", r"solout", r".*", ["dense_up_to_terminal_event", "sol_at_every_sample", "event_interpolant_right_end"]),
     ("C03", r"dispatch_R", r"first_output|handler", ["first_step_sign_and_overshoot"]),
     ("C11", r"dispatch_R", r"first_output|handler", ["first_step_sign_and_overshoot"]),
@@ -35,7 +36,8 @@ TABLE = [
     ("C06", r"radau|bdf", r"dense\.|interp|hist\.", ["dense_end_points", "radau_interpolant_interval"]),
     ("C19", r"radau", r"interpolant_interval|dense\.", ["radau_interpolant_interval"]),
     ("C06", r".*", r"dense\.|interp\.", ["event_interpolant_right_end"]),
-    ("C18", r".*", r"nfev|naccpt|nstep|njev", ["counters", "modified_solution_counts"]),
+    ("C18", r"dispatch", r".*", ["naccpt_equals_intervals", "counters"]),
+    ("C18", r".*", r"nfev|naccpt|nstep|njev", ["counters", "modified_solution_counts", "naccpt_equals_intervals"]),
     ("C19", r".*", r"fsal|proto\.|naccpt", ["counters", "modified_solution_doubling"]),
     ("C19", r"radau|bdf", r"proto\.|span\.|dense\.", ["dense_end_points", "radau_interpolant_interval"]),
     ("C19", r"radau|bdf|rk|dp", r".*", ["modified_solution_doubling", "initial_modified_solution"]),
